@@ -171,6 +171,8 @@ class SimInternalAdapter(BaseInternalRunAdapterDecorator, SnapshottableAdapter):
     async def on_tick(self, tick) -> None:
         self._w.on_tick(self.run_id, tick)
         await self._decorated.on_tick(tick)
+        for h in self._w.after_tick_hooks:
+            h(self, tick)
 
     @property
     def init_state(self):
@@ -293,14 +295,19 @@ def gen_spec(tape, cfg: dict[str, Any]) -> dict:
         workers = tape.rng_int(1, cfg["workers_max"], "workers")
         sync = n != "s0" and tape.chance(cfg["p_sync"], 100, "sync")
         pol = gen_policy(tape, cfg) if tape.chance(cfg["p_retry"], 100, "retry?") else None
+        if pol is not None and tape.chance(cfg.get("p_delay_stop", 0), 100, "delay-stop?"):
+            pol = dict(pol, stop=("any", [("delay", tape.choice([1, 2, 4], "delay-stop.d")), ("attempt", 4)]))
         if pol is not None and tape.chance(cfg["p_pred_raises"], 100, "pred-raises?"):
             pol = dict(pol, retry=("raises",))
         scripts = {}
         asks = False
+        do_collect = n != "s0" and len(accepts[n]) >= 2 and tape.chance(cfg["p_collect"], 100, "collect?")
         for t in accepts[n]:
             sc: list = []
             if not sync:
                 sc.append(("work",))
+            if do_collect:
+                sc.append(("collect", list(accepts[n]), None))
             if tape.chance(cfg["p_fail"], 100, "fail?"):
                 sc.append(("fail", tape.choice(cfg["exc_pool"], "exc"),
                            tape.rng_int(1, 3, "fail.k")))
@@ -457,6 +464,7 @@ class EngineWorld:
         self.tick_hooks: list = []
         self.stable_checks: list = []
         self.quiescent_hooks: list = []
+        self.after_tick_hooks: list = []
         self.states: set = set()
         self.wait_calls: list[dict] = []
         self.parent_of: dict[int, Any] = {}
@@ -532,7 +540,7 @@ class EngineWorld:
         ri = ctx.retry_info()
         rec = {"inv": self.inv_no, "step": s["name"], "uid": uid_of(ev), "t0": self.clock.t, "run": self._run_id_of(ctx)}
         runners = self.live_runners.get(self._run_id_of(ctx), [])
-        self.trace.log("enter", step=s["name"], uid=rec["uid"], inv=rec["inv"], ev=ev_desc(ev),
+        self.trace.log("enter", step=s["name"], uid=rec["uid"], inv=rec["inv"], ev=ev_desc(ev), path=getattr(ev, "path", None),
                        retry=ri.retry_number, lastexc=type(ri.last_exception).__name__ if ri.last_exception else None,
                        lastmsg=str(ri.last_exception) if ri.last_exception else None,
                        elapsed=ri.elapsed_seconds, run=self._run_id_of(ctx),
@@ -574,6 +582,18 @@ class EngineWorld:
                     await self.work()
                 elif op == "sleep":
                     await asyncio.sleep(act[1])
+                elif op == "pset":
+                    key = f"{s['name']}_{getattr(ev, 'path', '')}"
+                    await ctx.store.set("d." + key, True)
+                    self.trace.log("pset", step=s["name"], key=key, inv=rec["inv"], run=rec["run"])
+                elif op == "hset":
+                    fe = ev
+                    key = f"h_{getattr(fe.input_event, 'path', '')}"
+                    await ctx.store.set("d." + key, True)
+                elif op == "pstop":
+                    d = await ctx.store.get("d", default={})
+                    kind = "returned-stop"
+                    return StopEvent(result=sorted(d))
                 else:
                     done, result = self._act(s, ctx, ev, rec, act)
                     if done is not None:
@@ -605,7 +625,7 @@ class EngineWorld:
         try:
             script = s["scripts"].get(ev_desc(ev)) or s["scripts"].get("*") or [("ret", None)]
             for act in script:
-                if act[0] in ("work", "sleep", "wait"):
+                if act[0] in ("work", "sleep", "wait", "pset", "pstop", "hset"):
                     continue
                 done, result = self._act(s, ctx, ev, rec, act)
                 if done is not None:
@@ -655,6 +675,25 @@ class EngineWorld:
                 self.fail_counts[key] = c + 1
                 self.fault("step-failure")
                 raise EV.EXCS[excs[c % len(excs)]](f"{name}/{in_uid}/f{c}")
+        elif op == "failpath":
+            # deterministic under re-execution: depends only on the engine's attempt number
+            _, exc, k = act
+            rn = ctx.retry_info().retry_number
+            if k < 0 or rn < k:
+                self.fault("step-failure")
+                raise EV.EXCS[exc](f"{name}/{getattr(ev, 'path', '')}/a{rn}")
+        elif op == "psend":
+            _, tname, cnt = act
+            for i in range(cnt):
+                e = self.mk(tname, in_uid, name, path=f"{getattr(ev, 'path', '')}_{name}{i}")
+                self.trace.log("emit", uid=e.uid, ev=tname, by=name, via="send", target=None, parent=in_uid,
+                               inv=rec["inv"], run=rec["run"], path=e.path)
+                ctx.send_event(e)
+        elif op == "pret":
+            e = self.mk(act[1], in_uid, name, path=f"{getattr(ev, 'path', '')}_{name}r")
+            self.trace.log("emit", uid=e.uid, ev=act[1], by=name, via="return", target=None, parent=in_uid,
+                           inv=rec["inv"], run=rec["run"], path=e.path)
+            return ("returned", e.uid), e
         elif op == "failbase":
             self.fault("step-baseexception")
             raise SimBaseExc(f"{name}/{in_uid}")
@@ -749,6 +788,8 @@ class EngineWorld:
         self.live_runners.clear()
         self.publish_hooks.clear()
         self.tick_hooks.clear()
+        self.after_tick_hooks.clear()
+        self.quiescent_hooks.clear()
         gc.collect()
 
 
